@@ -51,15 +51,16 @@ type pendingOp struct {
 }
 
 type thread struct {
-	id      int
-	wake    chan struct{}
-	pending *pendingOp
-	done    bool
-	started bool
-	nops    int
-	lastRun int
-	touches int
-	delayed int // step at which the thread was switched away from while it could have run (0: not delayed)
+	id          int
+	wake        chan struct{}
+	pending     *pendingOp
+	done        bool
+	started     bool
+	nops        int
+	lastRun     int
+	touches     int
+	siteTouches map[int]int
+	delayed     int // step at which the thread was switched away from while it could have run (0: not delayed)
 	// rendezvous slots
 	slot   interface{}
 	slotOK bool
@@ -502,6 +503,32 @@ func Touch(name string) {
 
 // MaxTouches bounds the Touch scheduling points per thread.
 var MaxTouches = 64
+
+// MaxTouchesPerSite bounds how often one static Touch site is a scheduling point per thread: a scratch
+// buffer filled in a loop spends its budget on the first iterations of each statement, so that the
+// statements after the loop (the use of the buffer) still get their scheduling points.
+var MaxTouchesPerSite = 2
+
+// TouchAt is Touch with the identity of the static site (numbered by the instrumenter).
+func TouchAt(site int, name string) {
+	s := cur
+	if s == nil || s.finished || s.running == nil {
+		return
+	}
+	t := s.running
+	if t.touches >= MaxTouches {
+		return
+	}
+	if t.siteTouches == nil {
+		t.siteTouches = map[int]int{}
+	}
+	if t.siteTouches[site] >= MaxTouchesPerSite {
+		return
+	}
+	t.siteTouches[site]++
+	t.touches++
+	s.point(&pendingOp{kind: opYield, label: name})
+}
 
 // Choose is an environment choice point with n alternatives; choice 0 is the default answer.
 func Choose(n int) int {
